@@ -116,7 +116,7 @@ def clamp? (x lo hi : Nat) : Option Nat :=
       `true`   `cwnd = cwnd.saturating_add(newly_acked as u32);`
     All definitions below take the variant as a parameter; this constant is the one the driver and
     the "code as it is" theorems use. -/
-def saturatingGrowth : Bool := false   -- AFTER-FIX: true
+def saturatingGrowth : Bool := true   -- /repo carries the saturating add (fix commit); before the fix: false
 
 /-- `set_cwnd`: the window before the ProbeRTT bound and the final clamp. `newly_acked as u32` truncates;
     the filled-pipe branch uses `saturating_add`; the other growing branch is the write site selected by
